@@ -152,6 +152,10 @@ def pair_order(case):
     return pairs
 
 
+def risky(case, a, b):
+    return case.kind == "dragonfly" and "group-router-outside-chassis-0" in case.shape.features(a, b)
+
+
 def close(a, b):
     return abs(a - b) <= 1e-9 * max(abs(a), abs(b)) + 1e-15
 
@@ -161,6 +165,9 @@ def judge_pair(ctx, case, a, b, lat, links, exc):
     w = dict(case.witness(), pair=[a, b])
     feats = pair_features(case, a, b)
     fs = (":" + "+".join(feats)) if feats else ""
+    if exc is not None and exc.startswith("CRASH "):
+        ctx.violation("C26:%s:crash:%s%s" % (case.kind, exc[6:], fs), "%s [%s]: route_to(%d -> %d) killed the process (%s)" % (case.id, case.describe(), a, b, exc[6:]), w)
+        return False
     if exc is not None:
         ctx.violation("C26:%s:exception%s" % (shape_key(case), fs), "%s [%s]: route_to(%d -> %d) raised %r" % (case.id, case.describe(), a, b, exc), w)
         return False
@@ -253,7 +260,7 @@ def judge_case(ctx, case, scratch, state, corrupt=None):
 def runnable(case, pairs, suffix, scratch):
     r = RunPlat()
     r.id = case.id.replace("/", "~") + suffix
-    r.lines = case.spec_lines(scratch) + ["Q %s %s" % (case.host(a), case.host(b)) for a, b in pairs]
+    r.lines = case.spec_lines(scratch) + [("QF %s %s" if risky(case, a, b) else "Q %s %s") % (case.host(a), case.host(b)) for a, b in pairs]
     return r
 
 
